@@ -1,6 +1,4 @@
 package verifsim
 
-func genC14(seed int64, tier string) *Plan { return &Plan{Prop: "C14", Engine: "E3", Seed: seed, Cfg: map[string]int{}} }
 func genC18(seed int64, tier string) *Plan { return &Plan{Prop: "C18", Engine: "E3", Seed: seed, Cfg: map[string]int{}} }
-func runC14(p *Plan, res *Result)          {}
 func runC18(p *Plan, res *Result)          {}
